@@ -40,13 +40,21 @@ type FvarRecords struct {
 }
 
 func (fvr *FvarRecords) parseInstances(src []byte, axisCount, instanceCount, instanceSize int) error {
+	// "instanceSize: set to either axisCount * sizeof(Fixed) + 4, or to axisCount * sizeof(Fixed) + 6":
+	// smaller records would overlap, and each one allocates its axisCount coordinates,
+	// which would not be bounded by the length of the table
+	if minSize := 4 + 4*axisCount; instanceCount != 0 && instanceSize < minSize {
+		return fmt.Errorf("invalid instance records size %d (expected at least %d)", instanceSize, minSize)
+	}
 	if L := len(src); L < instanceCount*instanceSize {
 		return fmt.Errorf("EOF: expected length: %d, got %d", instanceCount*instanceSize, L)
 	}
 	fvr.Instances = make([]InstanceRecord, instanceCount)
 	for i := range fvr.Instances {
 		var err error
-		fvr.Instances[i], _, err = ParseInstanceRecord(src[instanceSize*i:], axisCount)
+		// each record is read from its own bytes: the optional PostScriptNameID
+		// is not taken from the start of the next one
+		fvr.Instances[i], _, err = ParseInstanceRecord(src[instanceSize*i:instanceSize*(i+1)], axisCount)
 		if err != nil {
 			return err
 		}
